@@ -67,6 +67,7 @@ func checkMapOrder(c *Ctx, rule string, fs []*ssa.Function) int {
 				phi *ssa.Phi
 			}
 			var accs []*ssa.Phi
+			var allocAccs []*ssa.Alloc
 			for _, b := range f.Blocks {
 				if !inBody(b) {
 					continue
@@ -78,6 +79,15 @@ func checkMapOrder(c *Ctx, rule string, fs []*ssa.Function) int {
 					case *ssa.Store:
 						if a, _, ok := rootAlloc(x.Addr); ok && inBody(a.Block()) {
 							continue // loop-local temporary
+						}
+						// a variable captured by a closure lives in an alloc: "v = append(v, x)" is the same accumulator idiom
+						if a, pth, ok := rootAlloc(x.Addr); ok && len(pth) == 0 {
+							if ap, isCall := x.Val.(*ssa.Call); isCall && calleeName(ap) == "builtin:append" {
+								if ld, isLoad := ap.Call.Args[0].(*ssa.UnOp); isLoad && ld.X == ssa.Value(a) {
+									allocAccs = append(allocAccs, a)
+									continue
+								}
+							}
 						}
 						if _, _, ok := rootAlloc(x.Addr); ok {
 							// store to an outer local: last-writer-wins depends on order unless it's an accumulator pattern; be conservative
@@ -156,6 +166,45 @@ func checkMapOrder(c *Ctx, rule string, fs []*ssa.Function) int {
 					}
 					if !okU {
 						problems = append(problems, fmt.Sprintf("slice %s filled in map order is used at %s without a dominating sort", ph.Comment, c.W.pos(u.Pos())))
+					}
+				}
+			}
+			for _, a := range allocAccs {
+				// every load of the accumulator outside the loop (and outside comparison closures handed to sort) must follow a sort of it
+				var sorts, uses []ssa.Instruction
+				for _, r := range *a.Referrers() {
+					ld, ok := r.(*ssa.UnOp)
+					if !ok || inBody(ld.Block()) {
+						continue
+					}
+					isSortArg := false
+					for _, rr := range *ld.Referrers() {
+						if ci, ok := rr.(ssa.CallInstruction); ok && sortFuncs[calleeName(ci)] {
+							sorts = append(sorts, rr)
+							isSortArg = true
+						}
+						if mi, ok := rr.(*ssa.MakeInterface); ok {
+							for _, r3 := range *mi.Referrers() {
+								if ci, ok := r3.(ssa.CallInstruction); ok && sortFuncs[calleeName(ci)] {
+									sorts = append(sorts, r3)
+									isSortArg = true
+								}
+							}
+						}
+					}
+					if !isSortArg {
+						uses = append(uses, ld)
+					}
+				}
+				for _, u := range uses {
+					okU := false
+					for _, s := range sorts {
+						if domInstr(s, u) {
+							okU = true
+						}
+					}
+					if !okU {
+						problems = append(problems, fmt.Sprintf("slice %s filled in map order is read at %s without a dominating sort", a.Comment, c.W.pos(u.Pos())))
 					}
 				}
 			}
